@@ -3,10 +3,10 @@ package main
 import (
 	"bufio"
 	"bytes"
-	"os/exec"
 	"encoding/hex"
 	"fmt"
 	"os"
+	"os/exec"
 	"strings"
 	"time"
 
@@ -49,7 +49,7 @@ type textPlan struct {
 	nA       int
 	len3     []uint32 // indices (i*nA*nA + j*nA + k) of the length-3 strings to run
 	len3All  bool
-	len4     []uint32 // sampled length-4 strings
+	len4     []uint32    // sampled length-4 strings
 	framed   [][2]uint32 // (frame, len<=2 index)
 	muts     []mutation
 	total    int
